@@ -27,7 +27,10 @@ unsafe impl GlobalAlloc for Counting {
         CALLS.fetch_add(1, Relaxed);
         if new > l.size() {
             let d = (new - l.size()) as u64;
-            BYTES.fetch_add(d, Relaxed);
+            // a growing realloc is counted with the full size requested: whether the block grows in place or is copied is the
+            // allocator's business, the program asked for `new` bytes (amortised doubling stays linear under this measure,
+            // growing by a constant per element does not)
+            BYTES.fetch_add(new as u64, Relaxed);
             let live = LIVE.fetch_add(d, Relaxed) + d;
             PEAK.fetch_max(live, Relaxed);
         } else {
